@@ -35,7 +35,61 @@ def plan(b, task):
     return procs, expect
 
 
+def _fail_child(args):
+    import json
+    import os
+    import shutil
+    import subprocess
+    import tempfile
+    base = tempfile.mkdtemp(prefix="verif_c13f_")
+    try:
+        out = os.path.join(base, "out.json")
+        p = subprocess.run([core.PY, "-m", "harness.fail_child", out] + [str(a) for a in args], env=core.child_env(hooks=False),
+                           capture_output=True, text=True, timeout=600)
+        if not os.path.exists(out):
+            return {"machinery": p.stderr[-500:]}
+        return {"history": json.load(open(out))}
+    finally:
+        shutil.rmtree(base, ignore_errors=True)
+
+
+def failure_histories(ctx):
+    """The failing pool of the statement beyond python raises: shell commands that exit non-zero or die from a signal,
+    and a workflow whose node fails, under concurrency limits.  History (one child interpreter each): submission 1
+    while the cause of the failure is present, cause removed, submissions 2 and 3.  The JobProtocol behaviour for it is
+    fixed: [raised + executed, ok + executed again, ok + served from the cache]."""
+    cases = [("shell", k) for k in ("exit1", "exit3", "sig9", "sig15")]
+    cases += [("wf", w, mc) for w in ("debug", "cf") for mc in ((0, 1, 2) if (ctx.thorough or w == "debug") else (0, 1))]
+    res = core.tmap(_fail_child, cases, threads=4)
+    want = [("failed", 1), ("ok", 1), ("ok", 0)]
+    for c, o in zip(cases, res):
+        ctx.ran()
+        ctx.nontriv(str(c))
+        if "machinery" in o:
+            raise core.MachineryError(f"fail_child {c}: {o['machinery']}")
+        h = o["history"]
+        got = [(x["status"] if x["status"] != "raised" else "failed", x["executions"]) for x in h]
+        good_out = all((x.get("stdout") == "done-w" and x.get("return_code") == 0) if c[0] == "shell" else x.get("outputs") == [2, 10]
+                       for x in h[1:] if x["status"] == "ok")
+        ok = got == want and good_out
+        # recorded finding: a node that failed in an earlier submission and is held back by max_concurrent in the first
+        # pass of the resubmission is never executed again: its stale errored result is taken for the new run's
+        #   (i) held back by max_concurrent: never executed again            -> [failed/1, failed/0, failed/0]
+        #  (ii) asynchronous worker: update_status may read the stale result before the relaunched job has cleared
+        #       its directory: the node IS executed again, yet the submission is reported failed (timing-dependent)
+        #                                                                     -> [failed/1, failed/1, ok/0]
+        in_class = c[0] == "wf" and (c[2] == 1 or c[1] == "cf")
+        asbuilt = ([("failed", 1), ("failed", 0), ("failed", 0)], [("failed", 1), ("failed", 1), ("ok", 0)])
+        predicted = in_class and got in asbuilt and good_out
+        ctx.judge(ok, f"failure history {c}: expected failure, re-execution, cache hit", case={"failure_history": list(c)},
+                  expected=want, observed="stale-error-served" if predicted else h,
+                  known_id="C13-heldback-node-stale-error" if in_class else None,
+                  asbuilt="stale-error-served" if in_class else None)
+    ctx.extra["failure_histories"] = len(cases)
+
+
 def run(ctx):
+    failure_histories(ctx)
     r = ctx.tlc("MC_JobProtocol", cfg="MC_C13.cfg", workers=8, coverage=True, timeout=900)
     ctx.require_coverage(r, ["BodyRaise", "CollectRaise", "RecordError", "RaiseOut", "CheckMiss"])
     behs = jc.tlc_behaviours(ctx, "c13_hist", ["p1"], maxsubs=3, rerun="Both", outcomes="OkOrRaise", lroot="OnlyAbsent")
@@ -92,6 +146,15 @@ def run(ctx):
 
 
 def replay(ctx, rec):
+    if "failure_history" in rec["case"]:
+        o = _fail_child(rec["case"]["failure_history"])
+        ctx.ran()
+        print(o)
+        h = o.get("history", [])
+        got = [(x["status"] if x["status"] != "raised" else "failed", x["executions"]) for x in h]
+        if got != [("failed", 1), ("ok", 1), ("ok", 0)]:
+            ctx.violation(f"replay: failure history {rec['case']['failure_history']}", case=rec["case"], observed=h)
+        return
     spec = rec["case"]["spec"]
     o = jc.execute(spec)
     ctx.ran()
